@@ -40,7 +40,7 @@ for l in lemmas:
     if l not in found:
         print("no statement printed for", l)
         sys.exit(1)
-    short = l.split(".")[-1]
+    short = os.environ.get("ADDPROPS_PREFIX", "") + l.split(".")[-1]       # ADDPROPS_PREFIX: keeps two developments' lemma names apart
     ty = "\n".join("  " + x.strip() for x in found[l].split("\n"))
     text.append("Theorem %s_%s :\n%s.\nProof. exact %s. Qed.\nPrint Assumptions %s_%s.\n" % (prop, short, ty, l, prop, short))
 open(pf, "w").write(src.rstrip("\n") + "\n" + "\n".join(text))
